@@ -525,7 +525,7 @@ func (a *Effects) merge(b *Effects) {
 // scratch context used only to compute heap names / sorts statically
 func (e *Engine) scratch() *FnCtx { return e.newFnCtx(nil, nil) }
 
-func (e *Engine) loopEffects(fn *ssa.Function, lp *Loop) *Effects {
+func (e *Engine) loopEffects(fn *ssa.Function, lp *Loop, fr *Frame) *Effects {
 	eff := newEffects()
 	sc := e.scratch()
 	var blocks []*ssa.BasicBlock
@@ -535,7 +535,7 @@ func (e *Engine) loopEffects(fn *ssa.Function, lp *Loop) *Effects {
 	sort.Slice(blocks, func(i, j int) bool { return blocks[i].Index < blocks[j].Index })
 	for _, b := range blocks {
 		for _, in := range b.Instrs {
-			e.instrEffects(sc, fn, in, eff, 0, true)
+			e.instrEffects(sc, fn, in, eff, 0, true, fr)
 		}
 	}
 	return eff
@@ -555,7 +555,7 @@ func (e *Engine) fnEffects(fn *ssa.Function, depth int) *Effects {
 	sc := e.scratch()
 	for _, b := range fn.Blocks {
 		for _, in := range b.Instrs {
-			e.instrEffects(sc, fn, in, eff, depth, false)
+			e.instrEffects(sc, fn, in, eff, depth, false, nil)
 		}
 	}
 	e.effCache[fn] = eff
@@ -680,7 +680,7 @@ func (e *Engine) mapEffects(sc *FnCtx, mt types.Type, eff *Effects) {
 	eff.heap(ln, sc.heapSorts[ln])
 }
 
-func (e *Engine) instrEffects(sc *FnCtx, fn *ssa.Function, in ssa.Instruction, eff *Effects, depth int, local bool) {
+func (e *Engine) instrEffects(sc *FnCtx, fn *ssa.Function, in ssa.Instruction, eff *Effects, depth int, local bool, fr *Frame) {
 	switch x := in.(type) {
 	case *ssa.Store:
 		e.storeEffects(sc, x.Addr, eff, local)
@@ -757,15 +757,15 @@ func (e *Engine) instrEffects(sc *FnCtx, fn *ssa.Function, in ssa.Instruction, e
 			eff.ghost["received"] = true
 		}
 	case *ssa.Call:
-		e.callEffects(sc, fn, x.Common(), eff, depth)
+		e.callEffects(sc, fn, x.Common(), eff, depth, fr)
 	case *ssa.Defer:
-		e.callEffects(sc, fn, x.Common(), eff, depth)
+		e.callEffects(sc, fn, x.Common(), eff, depth, fr)
 	case *ssa.Go:
 		// not modelled
 	}
 }
 
-func (e *Engine) callEffects(sc *FnCtx, fn *ssa.Function, cc *ssa.CallCommon, eff *Effects, depth int) {
+func (e *Engine) callEffects(sc *FnCtx, fn *ssa.Function, cc *ssa.CallCommon, eff *Effects, depth int, fr *Frame) {
 	if cc.IsInvoke() {
 		pk := ""
 		if cc.Method.Pkg() != nil {
@@ -823,6 +823,28 @@ func (e *Engine) callEffects(sc *FnCtx, fn *ssa.Function, cc *ssa.CallCommon, ef
 	case *ssa.MakeClosure:
 		e.staticCalleeEffects(sc, callee.Fn.(*ssa.Function), eff, depth)
 		return
+	}
+	// a function value the executing frame knows statically (e.g. the closure passed to Each)
+	if fr != nil {
+		if v, ok := fr.vals[cc.Value]; ok && v.Fn != nil {
+			e.staticCalleeEffects(sc, v.Fn.Fn, eff, depth)
+			return
+		}
+		if ld, ok := cc.Value.(*ssa.UnOp); ok {
+			// load of a parameter cell: f := param; f(...)
+			if al, ok := ld.X.(*ssa.Alloc); ok {
+				if pv, ok := fr.vals[al]; ok && pv.Addr != nil && pv.Addr.Kind == akLocal && !storedInLoopOrTwice(fn, al) {
+					for _, p := range fn.Params {
+						if p.Name() == al.Comment {
+							if av, ok := fr.vals[p]; ok && av.Fn != nil {
+								e.staticCalleeEffects(sc, av.Fn.Fn, eff, depth)
+								return
+							}
+						}
+					}
+				}
+			}
+		}
 	}
 	// function value: the contract of its function type, if there is one
 	pf := fn
@@ -1041,4 +1063,17 @@ func (e *Engine) ifaceContract(cc *ssa.CallCommon) *Contract {
 		}
 	}
 	return nil
+}
+
+// storedInLoopOrTwice: the parameter cell is assigned anywhere other than its initial store.
+func storedInLoopOrTwice(fn *ssa.Function, al *ssa.Alloc) bool {
+	n := 0
+	for _, b := range fn.Blocks {
+		for _, in := range b.Instrs {
+			if s, ok := in.(*ssa.Store); ok && s.Addr == al {
+				n++
+			}
+		}
+	}
+	return n > 1
 }
